@@ -135,6 +135,29 @@ func checkHeader(c *mon.Ctx, h *ref.PES) (b []byte, hdrEnd int, ok bool) {
 			bad("getters-follow-callers-buffer", "after the caller overwrote its buffer the decoded header reports different stream id / flags / PTS / DTS")
 		}
 		copy(b, snap)
+		// the caller's buffer receives the next PES header of the same stream (same length, same fixed
+		// bytes, other timestamps) and is decoded again: the new header reports the new times
+		if h.PTSDTS >= 2 {
+			h2 := *h
+			h2.PTS, h2.DTS = (h.PTS+3003)&(1<<33-1), (h.DTS^0x155555555)&(1<<33-1)
+			nb, _ := h2.Bytes()
+			if len(nb) == len(b) {
+				copy(b, nb)
+				c.Count("same_buffer_next_header")
+				if ph3, err := pes.NewPESHeader(b); err != nil || ph3 == nil || ph3.PTS() != h2.PTS || (h.PTSDTS == 3 && ph3.DTS() != h2.DTS) {
+					bad("stale-times-for-next-header-in-same-buffer", fmt.Sprintf("the buffer was refilled with the next header of the stream (PTS %d) and decoded again: PTS()=%d", h2.PTS, func() uint64 {
+						if ph3 == nil {
+							return 0
+						}
+						return ph3.PTS()
+					}()))
+				}
+				if ph.PTS() != h.PTS {
+					bad("getters-follow-callers-buffer", "the header decoded first reports the times of the header decoded later from the same buffer")
+				}
+				copy(b, snap)
+			}
+		}
 		// and the same when the buffer is re-used before the first query
 		b2 := append([]byte{}, snap...)
 		if ph2, err := pes.NewPESHeader(b2); err == nil && ph2 != nil {
@@ -211,6 +234,13 @@ func packetLevel(c *mon.Ctx, r *gen.Rand, h *ref.PES, b []byte, hdrEnd int) {
 	k := r.Intn(3)
 	dmg := append([]byte{}, b...)
 	dmg[k] ^= byte(1 << uint(r.Intn(8)))
+	switch r.Intn(4) {
+	case 0: // two wrong bytes that cancel in 8-bit arithmetic
+		x := byte(1 + r.Intn(255))
+		dmg[0], dmg[1], dmg[2] = x, byte(256-int(x)), 1
+	case 1:
+		copy(dmg, [][]byte{{0, 0, 0}, {0, 0, 2}, {0, 1, 0}, {1, 0, 0}, {0, 1, 1}, {1, 0, 1}, {0xff, 0xff, 0x01}, {0x00, 0x00, 0x81}, {0x80, 0x80, 0x01}}[r.Intn(9)])
+	}
 	p = carry(r, dmg, true)
 	if hb, err := packet.PESHeader(&p); err == nil || hb != nil {
 		c.Fail("packet:pes-header-bad-start-code", fmt.Sprintf("packet.PESHeader returned bytes although the payload starts %x", dmg[:3]), w(&p, ""))
